@@ -764,7 +764,8 @@ class DataSet:
                     self._time_keep &= v
                 else:
                     dump_keep = np.zeros(len(self._time_keep), dtype=bool)
-                    dump_keep[v] = True
+                    # A tuple is a sequence of indices here, not a multi-dimensional index
+                    dump_keep[list(v) if isinstance(v, tuple) else v] = True
                     self._time_keep &= dump_keep
             elif k == 'timerange':
                 start_time = katpoint.Timestamp(v[0]).secs + 0.5 * self.dump_period
@@ -829,7 +830,7 @@ class DataSet:
                     self._freq_keep &= v
                 else:
                     chan_keep = np.zeros(len(self._freq_keep), dtype=bool)
-                    chan_keep[v] = True
+                    chan_keep[list(v) if isinstance(v, tuple) else v] = True
                     self._freq_keep &= chan_keep
             elif k == 'freqrange':
                 start_freq = v[0] + 0.5 * self.spectral_windows[self.spw].channel_width
